@@ -46,6 +46,15 @@ impl MacroExprHelper<'_> {
     pub(crate) fn pos_for(&self, id: u64) -> Option<(isize, isize)> {
         self.helper.source_info.pos_for(id)
     }
+
+    /// Position to report an invalid macro argument at. An argument that was itself rejected
+    /// (a nested macro error, an invalid literal) carries no position of its own; the error
+    /// then points at the macro call.
+    pub(crate) fn argument_pos(&self, id: u64) -> (isize, isize) {
+        self.pos_for(id)
+            .or_else(|| self.pos_for(self.id))
+            .unwrap_or((1, 1))
+    }
 }
 
 #[derive(Debug)]
